@@ -72,7 +72,11 @@ def interp_left(ctx, k, m, with_y=True):
 
 def roll_av(ctx, n, steps, mode, kind='f'):
     v = ctx.iarr('v', n, -100, 100) if kind == 'i' else ctx.arr('v', n, -100.0, 100.0)
-    out = ctx.lib.fns.average.calc_roll_av_vals(v, steps, mode=mode)
+    if mode is None:
+        out = ctx.lib.fns.average.calc_roll_av_vals(v, steps)
+        mode = 'forward'
+    else:
+        out = ctx.lib.fns.average.calc_roll_av_vals(v, steps, mode=mode)
     ctx.observe('out', out)
     ctx.claim('length_kept', len(out) == n, len(out))
     if len(out) != n:
@@ -214,6 +218,10 @@ def obligations(tier, seed):
         for steps in range(1, n + 1):
             for mode in ('forward', 'backward', 'centre'):
                 yield Ob('roll_av', {'n': n, 'steps': steps, 'mode': mode})
+            if n in (4, 6, 7):
+                # the second documented spelling of the centred window, and the default (forward) without the keyword
+                yield Ob('roll_av', {'n': n, 'steps': steps, 'mode': 'center'})
+                yield Ob('roll_av', {'n': n, 'steps': steps, 'mode': None})
                 if n == 4:
                     yield Ob('roll_av', {'n': n, 'steps': steps, 'mode': mode, 'kind': 'i'})
     for n in ((2, 3, 4, 6) if q else (2, 3, 4, 5, 6, 8)):
